@@ -26,11 +26,21 @@ def run(chk):
         m = iv.with_params(ubm, T, sigma, t)
         stats = fa.gen_stats(r, ubm, r.choice([2, 3, 5]))
         zero_comp = (i % 6 == 0) and C >= 2
+        zc = r.randrange(C)    # which component is starved / tiny: first, middle or last
         if zero_comp:          # a component with zero count in every training statistic
             for st in stats:
-                st.n[-1] = 0.0
-                st.sum_px[-1] = 0.0
-                st.sum_pxx[-1] = 0.0
+                st.n = np.array(st.n, dtype=float)
+                st.sum_px = np.array(st.sum_px, dtype=float)
+                st.sum_pxx = np.array(st.sum_pxx, dtype=float)
+                st.n[zc] = 0.0
+                st.sum_px[zc] = 0.0
+                st.sum_pxx[zc] = 0.0
+        centred = (i % 5 == 2)
+        if centred:            # an utterance that has frames but whose first-order statistics sit exactly on the UBM means (F_c = N_c m_c)
+            st0c = stats[0]
+            st0c.n = np.array(st0c.n, dtype=float)
+            st0c.sum_px = st0c.n[:, None] * np.asarray(ubm.means, dtype=float)
+            st0c.sum_pxx = np.array(st0c.sum_pxx, dtype=float)
         tiny_comp = (i % 6 == 3) and C >= 2
         if tiny_comp:          # a component with a small but non-zero (fractional) count in every training statistic
             kf = r.choice([1e-3, 1e-4, 1e-6])
@@ -38,11 +48,11 @@ def run(chk):
                 st.n = np.array(st.n, dtype=float)
                 st.sum_px = np.array(st.sum_px, dtype=float)
                 st.sum_pxx = np.array(st.sum_pxx, dtype=float)
-                st.n[-1] *= kf
-                st.sum_px[-1] *= kf
-                st.sum_pxx[-1] *= kf
+                st.n[zc] *= kf
+                st.sum_px[zc] *= kf
+                st.sum_pxx[zc] *= kf
         ctx = {"ubm_means": hexlist(ubm.means), "ubm_vars": hexlist(ubm.variances), "T": hexlist(T), "sigma": hexlist(sigma), "tiny_count_component": tiny_comp,
-               "shape": [C, D, t], "stats": iv.dump_stats(stats), "zero_count_component": zero_comp}
+               "shape": [C, D, t], "stats": iv.dump_stats(stats), "zero_count_component": zero_comp, "component": zc, "centred_item": centred}
         # ---- projection: the unique solution of (I + sum_c N_c T_c' S_c^-1 T_c) w = sum_c T_c' S_c^-1 (F_c - N_c m_c)
         st0 = stats[0]
         w = np.asarray(m.project(st0))
@@ -76,7 +86,7 @@ def run(chk):
                 floor = float(np.median(sig1))
         if upd and zero_comp:
             # a floor ABOVE the current covariance of the component that receives no count: it must be lifted to the floor as well
-            floor = 1.5 * float(np.max(np.asarray(ubm.variances)[-1]))
+            floor = 1.5 * float(np.max(np.asarray(ubm.variances)[zc]))
         seed = r.randint(0, 10 ** 6)
         K = r.choice([1, 2, 4])
         T0 = iv.t0_of(seed, C, D, t)
